@@ -578,7 +578,8 @@ class Prop(fw.PropBase):
         # the generated table through the extracted model, all 125 contexts + truncated ones
         tk = [''.join(x) for n in (0, 1, 2, 3) for x in itertools.product('ACGTN', repeat=n)]
         tm = fw.run_model('C14', 3, [[ord(c) for c in k] for k in tk])
-        lt = {w: dict(tuple(e) for e in self.live_table[w]) for w in ('False', 'True')}
+        live = getattr(self, 'live_table', None) or {'False': [], 'True': []}
+        lt = {w: dict(tuple(e) for e in live[w]) for w in ('False', 'True')}
         for k, m in zip(tk, tm):
             exp = [ord(lt['False'].get(k, '\0')), ord(lt['True'].get(k, '\0'))]
             if m != exp:
